@@ -5,7 +5,7 @@
 ID=$1; TIER=$2; shift 2
 D=/verif/seeded/$ID; W=${EVALWT:-/tmp/wt_eval}
 [ -d $W ] || git -C /repo worktree add -q --detach $W HEAD
-git -C $W checkout -q --detach $(git -C /repo rev-parse HEAD); git -C $W checkout -q -- .; git -C $W clean -fdq
+git -C $W checkout -q -- .; git -C $W clean -fdq; git -C $W checkout -q --detach $(git -C /repo rev-parse HEAD) || exit 4
 git -C $W apply $D/patch.diff || exit 3
 cd /verif
 for P in "$@"; do
